@@ -35,6 +35,9 @@ fn oracle(s: &ProgScene<X>, t: &Trace) -> Vec<Violation> {
     let stop_requested = s.clients.iter().flat_map(|c| c.ops.iter()).any(|op| matches!(op, Op::Stop(_) | Op::Cmd(_, _, Action::Stop)));
     // items: handled in stream order, each once, a prefix of what the stream offers
     let handled: Vec<u32> = an.enters.iter().filter_map(|e| if let Cb::Item(i) = e.cb { Some(i) } else { None }).collect();
+    if !handled.is_empty() {
+        crate::check::oblige("items-in-order-once");
+    }
     if !x.items.starts_with(&handled) {
         out.push(Violation {
             clause: "items-in-order-once",
@@ -101,6 +104,7 @@ fn oracle(s: &ProgScene<X>, t: &Trace) -> Vec<Violation> {
     let stops = an.enters.iter().filter(|e| e.cb == Cb::Stopped).count();
     let must_terminate = x.closes || stop_requested || s.clients.iter().all(|c| !c.ops.iter().any(|o| matches!(o, Op::Await(_) | Op::Join(_))));
     if must_terminate {
+        crate::check::oblige("terminates");
         if term.is_none() {
             out.push(Violation {
                 clause: "terminates",
@@ -133,6 +137,9 @@ fn oracle(s: &ProgScene<X>, t: &Trace) -> Vec<Violation> {
         }
     }
     // all items handled if the actor outlived the stream (nobody stopped or dropped it first)
+    if x.closes && !stop_requested && term.is_some() && s.clients.iter().any(|c| c.ops.iter().any(|o| matches!(o, Op::Await(_)))) {
+        crate::check::oblige("all-items-when-outliving-stream");
+    }
     if x.closes && !stop_requested && term.is_some() && s.clients.iter().any(|c| c.ops.iter().any(|o| matches!(o, Op::Await(_)))) && handled != x.items {
         out.push(Violation {
             clause: "all-items-when-outliving-stream",
@@ -270,6 +277,7 @@ pub fn property() -> Property {
     Property {
         id: "C13",
         cases,
+        clauses: &["items-in-order-once", "terminates", "all-items-when-outliving-stream"],
         assumptions: &[
             "a never-ending stream that is always ready is excluded: terminating it on stop relies on the fairness of the random tie-break (probabilistic, not a bounded-exploration property)",
             "the select! tie-break between mailbox and stream is explored as a choice at every poll of the loop",
